@@ -159,6 +159,9 @@ type An struct {
 	Inline func(*ssa.Function) bool
 	// OpaqueFloatMayBeNaN: floats from unknown sources carry the NaN flag.
 	OpaqueFloatMayBeNaN bool
+	// AssumeNegativeDiff flips the case split of the r*(X-Y) rule: the hypothesis is X-Y <= 0
+	// and the product lies in [X-Y, 0] (used to prove both halves of a convex combination).
+	AssumeNegativeDiff bool
 	// NonNegative reports symbols known to be >= 0 by a separately verified invariant.
 	NonNegative func(ssa.Value) bool
 
@@ -533,6 +536,12 @@ func (an *An) binop(v *ssa.BinOp, facts []ir.Fact) AV {
 			}
 			return r
 		}
+		// c / v with constant c >= 0 and v >= 1 lies in [0, c]
+		if x.Exact != nil && x.Exact.IsConst() && x.Exact.C >= 0 {
+			if lo, _, okLo, _ := y.ConstBounds(); okLo && lo >= 1 {
+				return AV{Lo: []Lin{Konst(0)}, Hi: []Lin{Konst(x.Exact.C)}, NaN: nan}
+			}
+		}
 		// n/(X-Y) with 0 <= n <= X-Y lies in [0,1]  (X-Y > 0 established or assumed)
 		if isFloat(v.Type()) && y.Exact != nil && !y.Exact.IsConst() {
 			d := *y.Exact
@@ -601,6 +610,10 @@ func (an *An) binop(v *ssa.BinOp, facts []ir.Fact) AV {
 						return AV{Lo: []Lin{Konst(0)}, Hi: []Lin{*p[1].Exact}, NaN: nan}
 					}
 					continue
+				}
+				if an.AssumeNegativeDiff {
+					an.hyp(an.LinString(*p[1].Exact) + " <= 0")
+					return AV{Lo: []Lin{*p[1].Exact}, Hi: []Lin{Konst(0)}, NaN: nan}
 				}
 				an.hyp(an.LinString(*p[1].Exact) + " >= 0")
 				return AV{Lo: []Lin{Konst(0)}, Hi: []Lin{*p[1].Exact}, NaN: nan}
@@ -685,7 +698,7 @@ func (an *An) call(c *ssa.Call, facts []ir.Fact) AV {
 		}
 		sub := New(ci.Static)
 		sub.parent = an
-		sub.Name, sub.Assume, sub.Inline, sub.OpaqueFloatMayBeNaN, sub.NonNegative = an.Name, an.Assume, an.Inline, an.OpaqueFloatMayBeNaN, an.NonNegative
+		sub.Name, sub.Assume, sub.Inline, sub.OpaqueFloatMayBeNaN, sub.NonNegative, sub.AssumeNegativeDiff = an.Name, an.Assume, an.Inline, an.OpaqueFloatMayBeNaN, an.NonNegative, an.AssumeNegativeDiff
 		sub.depth = an.depth
 		sub.params = map[*ssa.Parameter]AV{}
 		for i, p := range ci.Static.Params {
